@@ -1342,6 +1342,15 @@ func genExecuteOrders(g *G) *Op {
 		return nil
 	}
 	sort.Slice(msg.SpotOrderIds, func(i, j int) bool { return msg.SpotOrderIds[i] < msg.SpotOrderIds[j] })
+	// the same order named more than once in one request
+	if g.Int("execdup", 0, 4) == 0 {
+		if len(msg.SpotOrderIds) > 0 {
+			msg.SpotOrderIds = append(msg.SpotOrderIds, msg.SpotOrderIds[0])
+		}
+		if len(msg.PerpetualOrderIds) > 0 {
+			msg.PerpetualOrderIds = append(msg.PerpetualOrderIds, msg.PerpetualOrderIds[0])
+		}
+	}
 	return &Op{Signer: g.W.Bot, Kind: "tradeshield.execute", Msg: msg}
 }
 
